@@ -69,6 +69,19 @@ Overlaps(kind, c) ==
       [] kind = "VJOURNAL"  -> VJournalOverlaps(c)
       [] OTHER              -> VFreeBusyOverlaps(c)
 
+(* --- 7.10 free-busy-query (beyond the listed properties) ------------------ *)
+\* The busy period a VEVENT contributes to a free-busy report over [S, E):
+\* <<start, end>> if it overlaps the range and is opaque and not cancelled;
+\* NoPeriod otherwise.  transp \in {"OPAQUE","TRANSPARENT"}, status \in
+\* {"CONFIRMED","TENTATIVE","CANCELLED"}.
+NoPeriod == <<NoVal, NoVal>>
+BusyPeriod(c, transp, status) ==
+    IF ~VEventOverlaps(c) \/ transp = "TRANSPARENT" \/ status = "CANCELLED" THEN NoPeriod
+    ELSE <<c.dtstart,
+           IF Has(c.dtend) THEN c.dtend
+           ELSE IF Has(c.dur) THEN c.dtstart + c.dur
+           ELSE IF c.isdate THEN c.dtstart + D1 ELSE c.dtstart>>
+
 (* ------------------------------------------------------------------------ *)
 (* 9.7.1 - 9.7.5: structural filters.                                        *)
 (*                                                                          *)
